@@ -1,0 +1,8 @@
+//go:build !verif
+
+package dhcp
+
+// verifCleanupGap marks the point of cleanupExpiredLeases between the read-locked scan for
+// expired leases and their write-locked removal, where packet handlers may run. It does
+// nothing unless the package is built with the verif tag (see verif_hooks_cleanup.go).
+func (s *Server) verifCleanupGap() {}
